@@ -22,14 +22,17 @@ CONSTANTS NLines,      \* abstract file length used for the meta-properties
 Inserting == {"blank", "comment"}
 Whole     == {"reindent", "crlf", "bom", "append", "rename"}
 Kinds     == Inserting \cup {"trailing"} \cup Whole
-\* abstract positions: fractions of the file (0 = before the first line, 3 = after the last line)
-Pos == 0..3
+\* abstract positions: fractions of the file (0 = before the first line, 3 = after the last line);
+\* 4 = "sweep": a family of single edits, one per line boundary of the file (the harness instantiates every one)
+Pos == 0..4
 
 VARIABLES edits, done
 vars == <<edits, done>>
 Init == edits = <<>> /\ done = FALSE
 Add(k, p) == /\ ~done /\ Len(edits) < MaxEdits
              /\ (k \in Whole => p = 0) /\ (k = "trailing" => p \in 1..2)
+             /\ (p = 4 => k \in Inserting /\ edits = <<>>)
+             /\ (edits # <<>> => edits[1].pos # 4)
              /\ (k \in Whole => \A i \in 1..Len(edits) : edits[i].kind # k)
              /\ edits' = Append(edits, [kind |-> k, pos |-> p]) /\ UNCHANGED done
 Finish == ~done /\ Len(edits) >= 1 /\ done' = TRUE /\ UNCHANGED edits
